@@ -205,7 +205,7 @@ func (w *workerProc) reap(hung bool) *death {
 	switch {
 	case hung:
 		d.reason = "hang"
-		d.site = faultSite(afterFirst(d.stderr, "goroutine "))
+		d.site = hangSite(d.stderr)
 	case strings.Contains(d.stderr, "stack overflow") || strings.Contains(d.stderr, "goroutine stack exceeds"):
 		d.reason = "stack-overflow"
 		d.site = recursionSite(d.stderr)
